@@ -134,6 +134,20 @@ func c17Pool() []string {
 			{DataAlg: h.DataAlgs[0], Transport: h.Transports[1], Digest: types.MethodSHA512, To: h.CertRef{Key: "E1", Window: "wide"}, Key: make([]byte, 16), IV: make([]byte, 12)}}
 		c17DigestInputs = append(c17DigestInputs, len(c17Inputs))
 		add(g3)
+		// DEFLATE-compressed presentations of some of the above, and compressed messages that BREAK OFF half-way
+		// (the inflater has produced the first part of a document when it fails): whatever a failed call leaves
+		// behind, the next call — on this or any other instance — returns what it returns alone
+		for _, i := range []int{0, 1, 3, 6, 9} {
+			raw, err := base64.StdEncoding.DecodeString(c17Inputs[i])
+			if err != nil {
+				panic(err)
+			}
+			for _, lvl := range []int{6, 0} {
+				comp := h.Deflate(raw, lvl)
+				c17Inputs = append(c17Inputs, base64.StdEncoding.EncodeToString(comp))
+				c17Inputs = append(c17Inputs, base64.StdEncoding.EncodeToString(comp[:len(comp)*2/3]))
+			}
+		}
 	})
 	return c17Inputs
 }
